@@ -6,7 +6,7 @@ from common import *
 PID = "C05"
 PROPS = "props/C05.v"
 GOTAB = ["code128.go"]
-GOFILES = ["code128.go"]
+GOFILES = ["code128.go", "all.go"]
 EXTRACT = ["base", "code128"]
 HANDLERS = ["h_code128.ml"]
 
@@ -324,3 +324,9 @@ Definition case_ok (c : bool * list Z * option (list bool * option Z)) : bool :=
   | _, _ => false
   end.
 """
+
+
+def extra(rep, impl_exe, model_exe, rng, tier):
+    # returned barcodes must remain what they were when other symbols are encoded afterwards
+    import held
+    return held.held_phase(rep, impl_exe, rng, ['c128', 'c128n'], n=10 if tier == "quick" else 80)
